@@ -16,6 +16,7 @@ From XV Require Corr.RunC02.
 From XV Require Corr.RunC01.
 From XV Require Corr.RunC10.
 From XV Require Corr.RunC13.
+From XV Require Corr.RunC07.
 (* REQUIRE-INSERTION-POINT: add "From XV Require Corr.RunCxx." above this line *)
 Open Scope Z_scope.
 
@@ -35,5 +36,6 @@ Definition dispatch (prop : Z) : sx -> sx :=
   if prop =? 1 then RunC01.run_C01 else
   if prop =? 10 then RunC10.run_C10 else
   if prop =? 13 then RunC13.run_C13 else
+  if prop =? 7 then RunC07.run_C07 else
   (* DISPATCH-INSERTION-POINT: add "if prop =? NN then RunCNN.run_CNN else" above this line *)
   fun _ => decode_error.
